@@ -423,8 +423,41 @@ func c19Replication(c *h.Ctx, id string, r *rand.Rand) {
 		sinceSync = 0
 		return true
 	}
+	// netWithdraw: more than a hundred log entries whose net effect is the withdrawal of prefixes the
+	// peer already knows (one withdrawal, then announce/withdraw pairs of another name): the peer
+	// catches up through a snapshot that adds nothing
+	netWithdraw := func() {
+		var have []enc.Name
+		pub.r.VerifLocked(func() {
+			for _, p := range pub.r.VerifPfx().GetRouter(pub.name).Prefixes {
+				have = append(have, p.Name.Clone())
+			}
+		})
+		if len(have) == 0 {
+			return
+		}
+		sort.Slice(have, func(i, j int) bool { return have[i].String() < have[j].String() })
+		victim := have[r.Intn(len(have))]
+		scratch, _ := enc.NameFromStr("/p/scratch")
+		pub.r.VerifLocked(func() {
+			pub.r.VerifPfx().Withdraw(victim.Clone())
+			for i := 0; i < 55+r.Intn(10); i++ {
+				pub.r.VerifPfx().Announce(scratch.Clone())
+				pub.r.VerifPfx().Withdraw(scratch.Clone())
+			}
+		})
+		sinceSync += 111
+		s.events = append(s.events, fmt.Sprintf("pub withdraws %s then churns /p/scratch (net effect: one withdrawal, > 100 log entries)", victim))
+		c.Count("net_withdrawal_snapshots", 1)
+	}
 	nextSync := []int{1, 3, 99, 100, 101, 150, 7}[r.Intn(7)]
 	for k := 0; k < nOps; k++ {
+		if sinceSync == 0 && k > 0 && r.Intn(3) == 0 {
+			netWithdraw()
+			if !check(fmt.Sprintf("after %d operations and a net-withdrawal burst", k)) {
+				return
+			}
+		}
 		nm := names[r.Intn(len(names))]
 		ann := r.Intn(3) != 0
 		var before, after uint64
